@@ -407,29 +407,51 @@ func cacheRule(r *Run, rule string) {
 			if !isMethodOf(f, tt) || f.Decl.Name.Name != "Clone" {
 				continue
 			}
-			recv := f.Obj.Type().(*types.Signature).Recv()
-			ok := true
-			nlit := 0
-			inspectBody(f.Decl.Body, false, func(n ast.Node) bool {
-				cl, isCl := n.(*ast.CompositeLit)
-				if !isCl || !namedIs(info.Types[cl].Type, modPath, "Template") {
-					return true
-				}
-				nlit++
-				for _, e := range cl.Elts {
-					kv, isKV := e.(*ast.KeyValueExpr)
-					if !isKV {
+			// on the SSA form: every return yields a fresh Template whose fields are the receiver's, one to one
+			// (field by field, or by copying the whole struct)
+			ok, nlit := false, 1
+			if fn := w.SSAFunc(f); fn != nil && len(fn.Params) == 1 {
+				paths, complete := walkPaths(fn, nil, nil)
+				ok = complete && len(paths) > 0
+				st, _ := tt.Underlying().(*types.Struct)
+				for _, p := range paths {
+					if p.end != "return" || len(p.results) != 1 || st == nil {
 						ok = false
 						continue
 					}
-					x, fld := fieldOf(info, kv.Value)
-					k, _ := kv.Key.(*ast.Ident)
-					if fld == nil || k == nil || fld.Name() != k.Name || objOf(info, x) != recv {
+					al, isAlloc := p.resolve(p.results[0]).(*ssa.Alloc)
+					if !isAlloc {
 						ok = false
+						continue
+					}
+					isRecvLoad := func(v ssa.Value, field int) bool {
+						ld, isLd := p.resolve(v).(*ssa.UnOp)
+						if !isLd || ld.Op != token.MUL {
+							return false
+						}
+						if field < 0 {
+							return p.resolve(ld.X) == ssa.Value(fn.Params[0])
+						}
+						fa, isFA := ld.X.(*ssa.FieldAddr)
+						return isFA && fa.Field == field && p.resolve(fa.X) == ssa.Value(fn.Params[0])
+					}
+					if whole, has := p.stores[objKey(al)]; has && isRecvLoad(whole, -1) {
+						// *t copied as a whole; no field may be overwritten afterwards
+						for i := 0; i < st.NumFields(); i++ {
+							if _, over := p.fieldOfObj(al, i); over {
+								ok = false
+							}
+						}
+						continue
+					}
+					for i := 0; i < st.NumFields(); i++ {
+						fv, has := p.fieldOfObj(al, i)
+						if !has || !isRecvLoad(fv, i) {
+							ok = false
+						}
 					}
 				}
-				return true
-			})
+			}
 			if ok && nlit == 1 {
 				r.Ok(rule, f.Name(), "clone literal", w.Pos(f.Decl.Pos()), "copies the receiver's fields one to one")
 			} else {
